@@ -20,10 +20,17 @@ class Inexact(Exception):
     pass
 
 
+class NotADate(Exception):
+    """a field that must hold a date / amount of work holds False, None, ... : never discarded, always reported"""
+
+
 def q(x):
-    """exact rational -> [num, den]; anything else (a float crept in) -> Inexact"""
-    if isinstance(x, bool) or not isinstance(x, (int, F)):
+    """exact rational -> [num, den]; a float (inexact arithmetic crept in) -> Inexact (case discarded and counted);
+    anything else (False: e.g. a record of a customer that never started service) -> NotADate (a violation)"""
+    if isinstance(x, float):
         raise Inexact(repr(x))
+    if isinstance(x, bool) or not isinstance(x, (int, F)):
+        raise NotADate(repr(x))
     x = F(x)
     return [x.numerator, x.denominator]
 
@@ -143,9 +150,47 @@ def occ_changes(recs):
 TAB = [F(0), F(1, 2), F(1), F(1), F(3, 2), F(2), F(7, 3), F(5, 2), F(3), F(10, 3), F(4), F(9, 2), F(1, 4), F(11, 5)]
 
 
+def gen_tandem(rng, big):
+    """feed-forward chain of 2-3 PS nodes: a fast upstream PS node (threshold >= capacity, so nobody is slowed
+    down, long requirements) feeds downstream PS nodes of small finite capacity 1-2 that are kept full by the
+    chain and by fresh external arrivals with short requirements: customers ALREADY SERVED at one PS node
+    arrive at a different, full, finite PS node and have to wait there"""
+    n = rng.choice([2, 2, 3])
+    k = rng.choice([1, 1, 2])
+    nodes = [{'ps': True, 'K': rng.choice(['inf', 'inf', 3, 4]), 'R': q(rng.choice([F(3), F(4), F(2), F(1)]))}]
+    for j in range(1, n):
+        nodes.append({'ps': True, 'K': rng.choice([1, 1, 2, 2, 3]), 'R': q(rng.choice([F(1), F(1), F(1, 2), F(2), F(3, 2)]))})
+    arr = []
+    for c in range(k):
+        row = [[rng.choice([0, 1, 1, 2]) for _ in range(rng.randint(1, 3))]]
+        for j in range(1, n):
+            row.append([rng.choice([1, 1, 2, 3]) for _ in range(rng.randint(1, 3))] if rng.random() < 0.6 else None)
+        for a in row:
+            if a is not None and sum(a) == 0:
+                a[0] = 1
+        arr.append(row)
+    routing = []
+    for c in range(k):
+        m = [[0.0] * n for _ in range(n)]
+        for i in range(n - 1):
+            m[i][i + 1] = rng.choice([1.0, 1.0, 0.75, 0.5])
+            if i + 2 < n and m[i][i + 1] < 1.0 and rng.random() < 0.5:
+                m[i][i + 2] = 0.25
+        if rng.random() < 0.25:
+            m[n - 1][0] = 0.25                      # occasionally close the chain
+        routing.append(m)
+    mult = [[(rng.randint(1, 9), rng.randint(0, 9), rng.randint(0, 13)) for _ in range(n)] for _ in range(k)]
+    # requirement scale per node: long upstream, short downstream (frequent departures from a full node)
+    scale = [[q(rng.choice([F(1), F(2), F(3)]))] + [q(rng.choice([F(1), F(1, 2), F(1, 3), F(1, 4)])) for _ in range(1, n)] for _ in range(k)]
+    return {'nodes': nodes, 'k': k, 'arr': arr, 'routing': routing, 'mult': mult, 'scale': scale, 'family': 'tandem',
+            'T': rng.choice([15, 25, 40] + ([80] if big else [])), 'seed': rng.randrange(1 << 30)}
+
+
 def gen_net(dseed, tier):
     rng = random.Random('c19net/%d' % dseed)
     big = tier != 'quick' and rng.random() < 0.3
+    if rng.random() < 0.5:
+        return gen_tandem(rng, big)
     n = rng.choice([1, 2, 2, 3] + ([4] if big else []))
     k = rng.choice([1, 1, 2])
     nodes = []
@@ -199,11 +244,11 @@ def run_net(ciw, cfg):
                 return seq[(self.i - 1) % len(seq)]
         return Arr()
 
-    def mk_req(node, a, b, c):
+    def mk_req(node, a, b, c, sc=F(1)):
         class Req(ciw.dists.Distribution):
             def sample(self, t=None, ind=None):
                 l = draws[node].setdefault(ind.id_number, [])
-                v = TAB[(a * ind.id_number + b * len(l) + c) % len(TAB)]
+                v = TAB[(a * ind.id_number + b * len(l) + c) % len(TAB)] * sc
                 l.append(v)
                 return v
 
@@ -219,7 +264,8 @@ def run_net(ciw, cfg):
     names = ['Class %d' % c for c in range(k)]
     N = ciw.create_network(
         arrival_distributions={names[c]: [mk_arr(a) if a is not None else None for a in cfg['arr'][c]] for c in range(k)},
-        service_distributions={names[c]: [mk_req(j + 1, *cfg['mult'][c][j]) for j in range(n)] for c in range(k)},
+        service_distributions={names[c]: [mk_req(j + 1, *cfg['mult'][c][j], sc=(F(*cfg['scale'][c][j]) if 'scale' in cfg else F(1)))
+                                          for j in range(n)] for c in range(k)},
         routing={names[c]: cfg['routing'][c] for c in range(k)},
         number_of_servers=[(INF if x['K'] == 'inf' else x['K']) for x in cfg['nodes']],
         ps_thresholds=[F(*x['R']) for x in cfg['nodes']])
@@ -239,6 +285,8 @@ def run_net(ciw, cfg):
         node = j + 1
         seen = {}
         arrs, recs = [], []
+        stale_waits = 0     # visits of a customer already served at ANOTHER PS node that has to wait here (node full)
+        ps_ids = [m + 1 for m, y in enumerate(cfg['nodes']) if y['ps'] and m != j]
         for vid, (iid, t) in enumerate(accept_log[node]):
             kth = seen.get(iid, 0)
             seen[iid] = kth + 1
@@ -247,10 +295,14 @@ def run_net(ciw, cfg):
             tq, wq = q(t), q(w)
             arrs.append([vid + 1, tq[0], tq[1], wq[0], wq[1]])
             rl = per_ind.get((node, iid), [])
+            waited = not (kth < len(rl)) or rl[kth].service_start_date is False or rl[kth].service_start_date > t
+            if waited and any(r2.exit_date <= t for m in ps_ids for r2 in per_ind.get((m, iid), [])):
+                stale_waits += 1
             if kth < len(rl):
                 r = rl[kth]
                 recs.append([vid + 1, q(r.arrival_date), q(r.service_start_date), q(r.exit_date)])
-        out.append({'node': node, 'K': x['K'], 'R': x['R'], 'arrs': arrs, 'recs': recs, 'revisits': any(v > 1 for v in seen.values())})
+        out.append({'node': node, 'K': x['K'], 'R': x['R'], 'arrs': arrs, 'recs': recs, 'revisits': any(v > 1 for v in seen.values()),
+                    'stale_waits': stale_waits})
     return out
 
 
@@ -263,7 +315,9 @@ class C19(Prop):
             'under two tie-break seeds and compared exactly with the extracted Gallina model: dates of every customer and the node slice '
             '(time_left, with_server, end dates, last update, last_occupancy) after the last event of every instant; for capacity inf / '
             'threshold 1 also a twin run of ciw.Node with one server (Lindley model, emptying instants); or (b) one network of 1-4 nodes '
-            '(PS and ordinary nodes, 1-2 classes, feedback routing incl. self loops, no blocking) run on exact rationals, where each PS '
+            '(PS and ordinary nodes, 1-2 classes, feedback routing incl. self loops, no blocking; half of them feed-forward chains of 2-3 PS '
+            'nodes whose downstream nodes have capacity 1-3 and are kept full, so customers already served at one PS node wait at another) '
+            'run on exact rationals, where each PS '
             "node's accept log is the model's arrival list (one id per visit) and each of its records must carry the model's dates, and "
             'every model departure before the horizon must have a record. non-trivial = the number of customers in service changed >= 3 '
             "times strictly inside one customer's service; distinct = distinct inputs (hash)")
@@ -273,7 +327,8 @@ class C19(Prop):
                    194: 'FIFO twin (ciw.Node, one server) differs from the Lindley model',
                    195: 'FIFO equivalence: the unlimited PS node and the FIFO node empty at different instants',
                    196: 'the model run is incomplete', 197: 'PS node slice (time_left / with_server / end dates / last_occupancy) differs from the model at an instant',
-                   198: 'number of distinct event instants differs from the model', 199: 'the implementation raised an exception'}
+                   198: 'number of distinct event instants differs from the model', 199: 'the implementation raised an exception',
+                   200: 'a record or PS-node field that must be a date is False / not a number (e.g. a customer left without ever starting service)'}
     level_text = 'proof'
     assumptions = ['single priority class at the PS node, no blocking into or out of it, one visit per customer',
                    'the implementation is driven on exact rationals (int / fractions.Fraction); a case in which a float appears is discarded and counted',
@@ -327,6 +382,9 @@ class C19(Prop):
         except Inexact as e:
             res['status'] = 'inexact'
             return res
+        except NotADate as e:
+            verdict = ('R', 0, 200, [])
+            why = 'field value %s where a date is required; %s' % (e, traceback.format_exc()[-700:])
         except Exception as e:
             verdict = ('R', 0, 199, [])
             why = traceback.format_exc()[-1200:]
@@ -380,6 +438,9 @@ class C19(Prop):
         except Inexact:
             res['status'] = 'inexact'
             return res
+        except NotADate as e:
+            verdict = ('R', 0, 200, [])
+            why = 'field value %s where a date is required; %s' % (e, traceback.format_exc()[-700:])
         except Exception:
             verdict = ('R', 0, 199, [])
             why = traceback.format_exc()[-1200:]
@@ -387,7 +448,9 @@ class C19(Prop):
         res['nframes'] = sum(len(pn['arrs']) + len(pn['recs']) for pn in per)
         oc = max([occ_changes(pn['recs']) for pn in per if pn['recs']] or [0])
         res['nontrivial'] = oc >= 3
-        st = {'network_cases': 1, 'network_ps_nodes': len(per), 'network_ps_visits': sum(len(pn['arrs']) for pn in per),
+        st = {'network_cases': 1, 'network_tandem_cases': 1 if cfg.get('family') == 'tandem' else 0,
+              'network_waits_at_full_ps_node_after_service_at_another_ps_node': sum(pn['stale_waits'] for pn in per),
+              'network_ps_nodes': len(per), 'network_ps_visits': sum(len(pn['arrs']) for pn in per),
               'network_ps_records': sum(len(pn['recs']) for pn in per),
               'network_cases_with_revisits': 1 if any(pn['revisits'] for pn in per) else 0,
               'occchg_%s' % ('0' if oc == 0 else '1-2' if oc <= 2 else '3-5' if oc <= 5 else '6-10' if oc <= 10 else '11+'): 1}
